@@ -1,6 +1,7 @@
 import PdfModel.Spec.Render
 import PdfModel.Lemmas.Parser
 import PdfModel.Lemmas.Serialize
+import PdfModel.Lemmas.Sequence
 
 /-! The randomized printer of `Spec/Render` only produces conformant spellings (`Spec/Syntax`), whatever the
     tape: so every rendering the harness generates lies in the domain of the C03 theorems. -/
@@ -583,5 +584,52 @@ theorem renderIndirect_spec (fmt : R → List UInt8) (pr : List UInt8 → Option
   · apply gap_bnd_must; intro hm; simpa using hm
   · intro hb; exact (gap_spec _ _).2 (by simpa [needsBnd] using hb)
   · apply gap_bnd_must; intro hm; simpa using hm
+
+
+/-- a sequence of objects as the printer writes it is a conformant sequence (`SeqOK`) of exactly these values;
+    the gap after the last object belongs to what follows -/
+theorem renderSeq_spec (fmt : R → List UInt8) (pr : List UInt8 → Option R) (xs : List (Prim R)) (tail : List UInt8) :
+    RenderableL fmt pr xs → (∀ x ∈ xs, PdfSyntax.WF x ∧ PdfSyntax.vdepth x ≤ maxDepth) → ∀ (t : Tape),
+    ∃ items rest, (renderSeq fmt xs tail t).1 = seqText items ++ rest ∧ SeqOK pr rest items ∧ items.map (·.1) = xs := by
+  induction xs with
+  | nil => intro _ _ t; exact ⟨[], tail, by simp [renderSeq, seqText], by simp [SeqOK], rfl⟩
+  | cons x xs ih =>
+    intro h hwf t
+    simp only [RenderableL] at h
+    obtain ⟨items, rest, e, hok, hmap⟩ := ih h.2 (fun y hy => hwf y (by simp [hy])) t
+    have hx := hwf x (by simp)
+    simp only [renderSeq]
+    have hgap := gap_spec (needsBnd x && startsRegular (renderSeq fmt xs tail t).1) (renderSeq fmt xs tail t).2
+    have hbnd : PdfSyntax.needsBnd x = true →
+        Bnd ((gap (needsBnd x && startsRegular (renderSeq fmt xs tail t).1) (renderSeq fmt xs tail t).2).1 ++
+          (renderSeq fmt xs tail t).1) := by
+      intro hb
+      apply gap_bnd_must
+      intro hm
+      simpa [needsBnd, hb] using hm
+    have key : ∀ (G T : List UInt8), Gap G → (PdfSyntax.needsBnd x = true → Bnd (G ++ (renderSeq fmt xs tail t).1)) →
+        Spells pr x T → ∃ items rest, T ++ G ++ (renderSeq fmt xs tail t).1 = seqText items ++ rest ∧ SeqOK pr rest items ∧
+          items.map (·.1) = x :: xs := by
+      intro G T hG hB hT
+      cases items with
+      | nil =>
+        refine ⟨[(x, T, [])], G ++ rest, ?_, ?_, by simp at hmap; simp [hmap]⟩
+        · simp [seqText] at e; simp [seqText, e]
+        · simp only [SeqOK, seqText]
+          refine ⟨hT, hx.1, hx.2, Gap.nil, by simp, ?_, trivial⟩
+          intro hb
+          have := hB hb
+          simp [seqText] at e
+          simpa [e] using this
+      | cons it items' =>
+        refine ⟨(x, T, G) :: it :: items', rest, ?_, ?_, by simp at hmap ⊢; exact hmap⟩
+        · simp only [seqText] at e ⊢; rw [e]; simp
+        · simp only [SeqOK]
+          refine ⟨hT, hx.1, hx.2, hG, fun hc => by simp at hc, ?_, hok⟩
+          intro hb
+          have := hB hb
+          rw [e] at this
+          simpa using this
+    exact key _ _ hgap.1 hbnd (render_spells fmt pr x h.1 _)
 
 end PdfSpec
